@@ -374,6 +374,13 @@ class Sym:
             pos = tuple(("uop", "*", rec(a.value)) if isinstance(a, ast.Starred) else rec(a) for a in e.args)
             kws = tuple((kw.arg or "**", rec(kw.value)) for kw in e.keywords)
             f = rec(e.func)
+            # G = operator.attrgetter('a', 'b') at module level; G(x) is (x.a, x.b)
+            if f[:1] == ("glob",) and len(pos) == 1 and not kws:
+                cv = getattr(getattr(self.cx, "module", None), "consts", {}).get(f[1])
+                if isinstance(cv, ast.Call) and (A.dotted(cv.func) or "").split(".")[-1] == "attrgetter" and cv.args \
+                        and all(isinstance(a_, ast.Constant) and isinstance(a_.value, str) and "." not in a_.value for a_ in cv.args):
+                    parts = tuple(("attr", pos[0], a_.value) for a_ in cv.args)
+                    return parts[0] if len(parts) == 1 else ("tuple", parts)
             # map(f, xs) is (f(x) for x in xs); attrgetter / itemgetter / list / tuple as f are spelled out
             if f == ("glob", "map") and len(pos) == 2 and not kws:
                 el = mk_elem(pos[1])
@@ -421,6 +428,22 @@ class Sym:
             return mk_alt([rec(e.body), rec(e.orelse)], self.max_alts, A.src(e)[:30])
         if isinstance(e, (ast.Tuple, ast.List, ast.Set)):
             kind = {ast.Tuple: "tuple", ast.List: "list", ast.Set: "set"}[type(e)]
+            if kind in ("list", "set") and any(isinstance(x, ast.Starred) for x in e.elts):
+                # [a, *xs, b]: a list accumulated in that order
+                cs = []
+                for x in e.elts:
+                    if isinstance(x, ast.Starred):
+                        tv = rec(x.value)
+                        sub = _list_contribs(tv) if kind == "list" else None
+                        if sub is not None:
+                            cs.extend(sub)
+                        elif tv[:1] == ("acc",) and tv[1] in ("list", "set", "gen"):
+                            cs.extend(tv[2])
+                        else:
+                            cs.append(("many", (), tv))
+                    else:
+                        cs.append(("one", (), rec(x)))
+                return ("acc", kind, tuple(cs))
             return (kind, tuple(rec(x) for x in e.elts))
         if isinstance(e, ast.Dict):
             if any(k is None for k in e.keys):
